@@ -297,9 +297,9 @@ def validate_cascade(framework, cascade, cascade_name=None, fallback_used: bool 
             pop_types.add(comps.at[comp, "population type"])
     if len(pop_types) > 1:
         if fallback_used:
-            raise Exception("The framework defines multiple population types and has characteristics spanning population types. Therefore, a default fallback cascade cannot be automatically constructed. You will need to explicitly define a cascade in the framework file")
+            raise InvalidCascade("The framework defines multiple population types and has characteristics spanning population types. Therefore, a default fallback cascade cannot be automatically constructed. You will need to explicitly define a cascade in the framework file")
         else:
-            raise Exception('Cascade "%s" includes compartments from more than one population type' % (cascade_name))
+            raise InvalidCascade('Cascade "%s" includes compartments from more than one population type' % (cascade_name))
 
     for i in range(0, len(expanded) - 1):
         if not (set(expanded[i + 1]) <= set(expanded[i])):
